@@ -346,7 +346,7 @@ pub fn session(lines: &[String], emit: &mut dyn FnMut(String)) {
     let mut bset: BTreeSet<u64> = BTreeSet::new();
     let (mut started, mut exited) = (false, false);
     let mut expected_log: Vec<String> = vec![];   // log lines the injected calls must have produced (specification)
-    let mut ok_calls = 0u64;
+    let mut ran_calls = 0u64;       // injected calls whose callee was executed
     let mut state_ok = true;                       // no oracle failure so far that makes the final output meaningless
     let mut stops_in: Vec<String> = vec![];        // function names of the stops at which calls were made
     let mut pending_fault: Option<(u32, i64)> = None;
@@ -457,16 +457,26 @@ pub fn session(lines: &[String], emit: &mut dyn FnMut(String)) {
                 let f = FNS.iter().find(|f| f.0 == *name);
                 let spec: Option<Vec<u64>> = f.and_then(|f| if f.2.len() == lits_v.len() && lits_v.len() <= 6 {
                     lits_v.iter().zip(f.2.iter()).map(|(l, t)| spec_arg(l, t)).collect() } else { None });
-                match (&spec, cls.as_str()) {
-                    (Some(args), "ok") => {
+                // the callee ran iff the `cont` over `call *%rax; int3` was made (and it did not run into the patch): a command
+                // that fails AFTERWARDS (restoring registers, munmap) has still executed f once
+                let callee_ran = reached_cont && !through_pc;
+                match (&spec, callee_ran) {
+                    (Some(args), true) => {
                         let mut a = args.clone(); a.resize(6, 0);
                         expected_log.push(format!("log {} {}", f.unwrap().1, a.iter().map(|v| format!("{v:x}")).collect::<Vec<_>>().join(" ")));
-                        ok_calls += 1;
+                        ran_calls += 1;
                         stops_in.push(fn_here.clone());
+                    }
+                    (None, true) => { state_ok = false; } // the log will contain an entry the specification does not predict
+                    _ => {}
+                }
+                match (&spec, cls.as_str()) {
+                    (Some(_), "ok") if !callee_ran && !through_pc => {
+                        state_ok = false;
+                        oracle(emit, "call-answered-ok-without-running-the-callee", what_call.clone());
                     }
                     (None, "ok") => {
                         // accepted although the specification refuses it: which argument?
-                        state_ok = false; // the log will contain an entry the specification does not predict
                         let why = match f {
                             None => "unknown function".to_string(),
                             Some(f) if f.2.len() != lits_v.len() => "wrong argument count".to_string(),
@@ -476,7 +486,7 @@ pub fn session(lines: &[String], emit: &mut dyn FnMut(String)) {
                         oracle(emit, if all_int_range { "literal-out-of-range-accepted-and-truncated" } else { "call-accepted-although-argument-does-not-fit" },
                             format!("{what_call} answered ok although {why}"));
                     }
-                    (Some(_), c) if !fired && c != "panic" => {
+                    (Some(_), c) if !fired && c != "panic" && c != "ok" => {
                         oracle(emit, "well-formed-call-refused", format!("{what_call} answered {c}"));
                     }
                     (_, "panic") if !fired && !through_pc => { state_ok = false; oracle(emit, "call-panicked", what_call.clone()); }
@@ -520,10 +530,10 @@ pub fn session(lines: &[String], emit: &mut dyn FnMut(String)) {
         let nat_calls: u64 = part(&nat_s, "calls ").first().and_then(|l| l[6..].parse().ok()).unwrap_or(0);
         if part(&got_s, "sums ") != part(&nat_s, "sums ") {
             let key = if stops_in.iter().any(|f| f.contains("4leaf")) { "stack-below-rsp-clobbered-by-call-in-leaf-function" } else { "program-results-changed-after-calls" };
-            oracle(emit, key, format!("after {ok_calls} injected calls (made while stopped in {:?}) the program printed {:?}, natively {:?}", stops_in, part(&got_s, "sums "), part(&nat_s, "sums ")));
+            oracle(emit, key, format!("after {ran_calls} injected calls (made while stopped in {:?}) the program printed {:?}, natively {:?}", stops_in, part(&got_s, "sums "), part(&nat_s, "sums ")));
         }
-        if part(&got_s, "calls ") != vec![format!("calls {}", nat_calls + ok_calls)] {
-            oracle(emit, "callee-not-run-exactly-once", format!("{ok_calls} successful injected calls, program counted {:?}, natively {nat_calls}", part(&got_s, "calls ")));
+        if part(&got_s, "calls ") != vec![format!("calls {}", nat_calls + ran_calls)] {
+            oracle(emit, "callee-not-run-exactly-once", format!("{ran_calls} injected calls executed their callee, program counted {:?}, natively {nat_calls}", part(&got_s, "calls ")));
         } else if part(&got_s, "sums ") == part(&nat_s, "sums ") && !is_merge(&part(&got_s, "log "), &part(&nat_s, "log "), &expected_log) {
             oracle(emit, "callee-arguments-differ-from-literals", format!("log {:?}; expected a merge of the native log {:?} and {:?}", part(&got_s, "log "), part(&nat_s, "log "), expected_log));
         }
@@ -537,7 +547,7 @@ pub fn exec(req: &[String], out: &mut Out, tmpdir: &std::path::Path) {
         sessions.last_mut().unwrap().push(l.clone());
     }
     let par = par_default().min(4);
-    let results = run_sessions(&sessions, tmpdir, "c16", par, session_timeout().max(90), |s, emit| session(s, emit));
+    let results = run_sessions(&sessions, tmpdir, "c16", par, session_timeout(), |s, emit| session(s, emit));
     for (i, (s, (lines, how))) in sessions.iter().zip(results).enumerate() {
         let mut pairs: Vec<(String, String)> = vec![];
         for l in lines {
